@@ -92,13 +92,14 @@ def register(reg):
     reg.add(Contract(
         PF, 'FileRead.get_file_logical_data', {'self': FR, 'position': POS, 'offset': Int, 'length': Int}, ghost=G,
         ghost_init={'j': 'j0'},
-        # NOTE: nothing here mentions self.visible_record, self.logical_record_segment_header or the file position:
-        # the result is therefore proved for every history of earlier fetches.
-        requires=[LAYOUT_OK, LR, 'position.vr_position == sg_vrp[j0]', 'position.lrsh_position == sg_pos[j0]',
+        # NOTE: nothing here fixes WHERE the cursor (self.visible_record, self.logical_record_segment_header, file
+        # position) is left by earlier calls - only the representation invariant of the visible-record cursor, which
+        # every operation re-establishes (postcondition below).  The result is therefore proved for every history.
+        requires=[LAYOUT_OK, LR, 'vr_ri(self.file.data, self.visible_record)', 'position.vr_position == sg_vrp[j0]', 'position.lrsh_position == sg_pos[j0]',
                   'self.file.rd_lo == len(self.file.data)', 'self.file.rd_hi == 0'],
         raises={'ExceptionFileRead': 'offset < 0'},
         modifies=MOD_FILE + MOD_HDR + MOD_VR,
-        ensures=['not is_none(result.logical_data)', 'is_none(result._bytes)',
+        ensures=['vr_ri(self.file.data, self.visible_record)', 'not is_none(result.logical_data)', 'is_none(result._bytes)',
                  'len(result.logical_data.bytes) == got(len(L), offset, length)',
                  'forall(0, len(result.logical_data.bytes), lambda i: result.logical_data.bytes[i] == L[offset + i])',
                  'result.logical_data.index == 0',
